@@ -1,6 +1,7 @@
 package props
 
 import (
+	"strings"
 	"fmt"
 
 	"golang.org/x/tools/go/ssa"
@@ -49,6 +50,11 @@ func checkC20(c *Ctx) {
 	}
 	c.dedupInsert()
 	c.fanOut(r.HandOver)
+	// the inbound QoS 2 queue of the client and the packet writer it answers through
+	c.queueIndexRules()
+	c.growRules()
+	c.occupancyByCount()
+	lockBalance(c, func(cl string) bool { return cl == "service.service.wmu" || strings.HasPrefix(cl, "sessions.Ackqueue.") }, "write-mutex/ack-queue")
 }
 
 func (c *Ctx) clientConnect(fn *ssa.Function) {
